@@ -142,7 +142,10 @@ func (reg *LWW) setValue(ctx context.Context, val []byte, priority uint64) error
 		return nil
 	} else if priority == curPrio {
 		curValue, err := reg.store.Get(ctx, key.Bytes())
-		if err != nil {
+		if errors.Is(err, corekv.ErrNotFound) {
+			// a nil value is stored by omitting the field key (see below)
+			curValue = client.CborNil
+		} else if err != nil {
 			return err
 		}
 
